@@ -16,7 +16,7 @@ from vlib import sym as gs
 from vlib import xh
 from vlib.build import build
 from vlib.driver import Report
-from vlib.par import pmap
+from vlib.par import pmap, run_groups
 from vlib.session import run_case, Violation
 from vlib import zt
 
@@ -260,10 +260,7 @@ def run(tier, seed, only=None):
                   "charges_per_index": "<=2", "block_sizes": "1..2", "pre-fused legs": "3-leg bases fused over (1,2)/(2,0) then fused again"}
     rep.outside = ["rank > 4, more than two groups at once, block sizes > 2", "rounding"]
     groups = build_family(tier, seed)
-    for name, (cases, ex) in groups.items():
-        if only and only not in name:
-            continue
-        rep.add_cases(name, pmap(_run, cases), exhaustive=ex)
+    run_groups(rep, groups, _run, only)
     if not only or "xh" in only:
         res, herr = xh.run_all(os.path.join(env.VERIF, "harness", "h_c05.py"), timeout=120 if tier == "quick" else 400)
         rep.add_xh(res)
